@@ -161,3 +161,82 @@ Proof.
   apply (worklist_is_gfp E (mark_of ml) (2 * length ml + 1) (initial_queue ml) m'); [|exact P].
   intros a b Hd Hb. apply initial_queue_complete; [exact Hb|]. eapply Hrange; eassumption.
 Qed.
+
+(* ---- the fuel of the worklist suffices: propagate_judgements never runs out ---- *)
+Section Fuel.
+  Variable E : list edge.
+  Definition wnodes : list nat := nodup Nat.eq_dec (map fst E).
+  Definition cnt (m : mark) : nat := length (filter m wnodes).
+
+  Lemma filter_set_false (m : mark) v l : NoDup l -> In v l -> m v = true ->
+    length (filter (set_false m v) l) + 1 = length (filter m l).
+  Proof.
+    induction l as [|a l IH]; intros Hnd Hin Hv; [destruct Hin|].
+    inversion Hnd as [|? ? Hna Hnd']; subst. cbn [filter]. unfold set_false at 1.
+    destruct (Nat.eqb_spec a v) as [->|Hne].
+    - rewrite Hv. cbn [length].
+      assert (filter (set_false m v) l = filter m l) as E1.
+      { apply filter_ext_in. intros x Hx. unfold set_false. destruct (Nat.eqb_spec x v); [subst; contradiction|reflexivity]. }
+      rewrite E1. lia.
+    - destruct Hin as [->|Hin]; [contradiction|]. specialize (IH Hnd' Hin Hv).
+      destruct (m a); cbn [length]; lia.
+  Qed.
+
+  Lemma dependents_in_wnodes v a : In a (dependents E v) -> In a wnodes.
+  Proof.
+    unfold dependents, wnodes. intros H. apply nodup_In. apply in_map_iff in H. destruct H as [e [<- He]].
+    apply filter_In in He. apply in_map. tauto.
+  Qed.
+
+  Lemma demote_measure L : (forall a, In a L -> In a wnodes) -> forall m q m' q',
+    fold_left demote_one L (m, q) = (m', q') -> length q' + cnt m' = length q + cnt m.
+  Proof.
+    induction L as [|n1 L IH]; intros HL m q m' q' H; cbn [fold_left] in H.
+    - inversion H; subst. reflexivity.
+    - unfold demote_one at 2 in H. cbn [fst snd] in H. destruct (m n1) eqn:E1.
+      + rewrite (IH (fun a Ha => HL a (or_intror Ha)) _ _ _ _ H). rewrite app_length. cbn [length].
+        pose proof (filter_set_false m n1 wnodes (NoDup_nodup _ _) (HL n1 (or_introl eq_refl)) E1) as F. unfold cnt. lia.
+      + exact (IH (fun a Ha => HL a (or_intror Ha)) _ _ _ _ H).
+  Qed.
+
+  Theorem propagate_total fuel : forall m q, length q + cnt m <= fuel -> exists m', propagate fuel E m q = Some m'.
+  Proof.
+    induction fuel as [|f IH]; intros m q H; destruct q as [|v q]; cbn [propagate].
+    - eexists; reflexivity.
+    - cbn [length] in H. lia.
+    - eexists; reflexivity.
+    - cbn [length] in H. destruct (m v) eqn:Mv.
+      + apply IH. lia.
+      + destruct (demote E v (m, q)) as [m1 q1] eqn:D. cbn [fst snd]. apply IH.
+        unfold demote in D. rewrite (demote_measure _ (dependents_in_wnodes v) _ _ _ _ D). lia.
+  Qed.
+End Fuel.
+
+Lemma nodup_bounded_length l n : NoDup l -> (forall x, In x l -> x < n) -> length l <= n.
+Proof.
+  intros Hnd Hb. rewrite <- (seq_length n 0). apply NoDup_incl_length; [exact Hnd|].
+  intros x Hx. apply in_seq. specialize (Hb x Hx). lia.
+Qed.
+
+Lemma filter_len_le {A} (f : A -> bool) l : length (filter f l) <= length l.
+Proof. induction l as [|a l IH]; cbn [filter length]; [lia|]. destruct (f a); cbn [length]; lia. Qed.
+
+Lemma initial_queue_length ml : length (initial_queue ml) <= length ml.
+Proof.
+  unfold initial_queue. rewrite map_length. etransitivity; [apply filter_len_le|]. rewrite combine_length, seq_length. lia.
+Qed.
+
+(* the function the toolbox calls always returns (never out of fuel), for every graph and marking *)
+Theorem propagate_judgements_total E ml : exists r, propagate_judgements E ml = Some r.
+Proof.
+  unfold propagate_judgements.
+  destruct (propagate_total E (2 * length ml + 1) (mark_of ml) (initial_queue ml)) as [m' Hm].
+  - pose proof (initial_queue_length ml) as Hq.
+    assert (cnt E (mark_of ml) <= length ml) as Hc.
+    { unfold cnt. apply nodup_bounded_length.
+      - apply NoDup_filter. apply NoDup_nodup.
+      - intros x Hx. apply filter_In in Hx. destruct Hx as [_ Hx]. unfold mark_of in Hx.
+        destruct (Nat.lt_ge_cases x (length ml)) as [Hl|Hl]; [exact Hl|]. rewrite nth_overflow in Hx by exact Hl. discriminate. }
+    lia.
+  - rewrite Hm. eexists; reflexivity.
+Qed.
